@@ -119,6 +119,15 @@ def c10(run, replay):
              "and HTTP body sizes around each limit x padding kind; distinct = distinct abstract rows",
         sig=lambda t: "row %s" % json.dumps(t["row"], sort_keys=True),
         mc_timeout=1200, trace_timeout=1800, harness_timeout=3000)
+    # the peer drops the connection at the two moments a frame it just sent is being acted upon (gate-forced): the client neither
+    # crashes nor wedges
+    scen = [{"sc": "trap.chanval", "args": {}}, {"sc": "trap.chanclose", "args": {}}]
+    trace, viol = run_ws_scenarios(run, wd, scen, "c10ws", timeout=1200)
+    report_ws(run, trace, viol, "C10", scen, "peer")
+    for v in viol:
+        if v[1] == "C03" and v[2] in ("call-never-returned", "probe-hung") and 0 < v[0] <= len(scen):
+            run.violation("peer %s: client wedged (%s)" % (scen[v[0] - 1]["sc"], v[2]), "client-wedged",
+                          {"property": "C10", "scenario": scen[v[0] - 1], "clause": v[2], "call": v[3]})
 
 
 # --------------------------------------------------------------------------------------------- C11
@@ -618,6 +627,14 @@ def c05(run, replay):
     # a silent stall is an outage too: the client must notice it by itself (even while the application keeps calling) and heal
     scen.append({"sc": "c17.keepalive", "args": {"pingms": 10, "timeoutms": 100, "blackhole": "steady", "longx": 1.5, "idlex": 1}})
     trace, viol = run_ws_scenarios(run, wd, scen, "c05", hooks=True, timeout=3000)
+    # confirm before raising an alarm on the millisecond-scale keepalive clauses (see C17): report only what shows up twice
+    timing = [v for v in viol if v[1] == "C05" and (v[2].startswith("call-failed-on-healed-link") or v[2].startswith("healed-")) and 0 < v[0] <= len(scen)]
+    if timing:
+        idx = sorted({v[0] for v in timing})
+        trace2, viol2 = run_ws_scenarios(run, wd, [scen[i - 1] for i in idx], "c05confirm", hooks=True, timeout=3000)
+        confirmed = {(idx[v[0] - 1], v[2]) for v in viol2 if v[1] == "C05" and 0 < v[0] <= len(idx)}
+        keep = set(id(v) for v in timing if (v[0], v[2]) in confirmed)
+        viol = [v for v in viol if v not in timing or id(v) in keep]
     report_ws(run, trace, viol, "C05", scen, "outage")
     binding_pass(run, wd, [s for s in scen if s["args"].get("faileddials", 0) < 20], "c05", limit=8 if not thorough else 60)
     for v in viol:   # not re-establishing the link after a silent stall is a C05 failure as much as a C17 one
@@ -679,6 +696,8 @@ def c06(run, replay):
     r = run.tlc(wd, "SrvConnMC.tla", "SrvConn_cancelany.cfg", timeout=600, tag="model_runs")
     if r["violated"] not in ("CancelHasCause", "CancelExact"):
         raise vp.ToolFailure("self-test: SrvConn with a cancel-everything executor should violate CancelHasCause / CancelExact, got %s" % r["violated"])
+    # a batch of calls in one HTTP request: nobody cancels, no handler context may be cancelled
+    scen.append({"sc": "c06.batch", "args": {"n": 3}})
     # the caller of a subscription gives up while the connection goroutine is stuck in a write, then the response arrives (gates + back-pressure)
     scen.append({"sc": "trap.subcancel", "args": {}})
     # a method whose only result is the channel: its handler context lives as long as the stream
@@ -784,6 +803,7 @@ def c08(run, replay):
     scen += [s for s in stream_scenarios(rnd, False) if "closeorder" in s["args"]]
     scen.append({"sc": "trap.closerace", "args": {}})
     scen.append({"sc": "trap.chanclose", "args": {}})       # the executor closing a sink while the main loop sweeps the channel handlers
+    scen.append({"sc": "trap.chanval", "args": {}})         # ... and handing a value to a sink at that moment
     for gap in (1, 10):         # a subscription of the previous connection is cancelled while its channel id is in use again
         scen.append({"sc": "c08.reuse", "args": {"gapms": gap}})
     trace, viol = run_ws_scenarios(run, wd, scen, "c08", timeout=3000)
@@ -978,6 +998,8 @@ def c15(run, replay):
             scen.append({"sc": "c15.end", "args": {"cause": cause, "mix": ["unary"], "gatereader": True, "reverse": True}})
             scen.append({"sc": "c15.end", "args": {"cause": cause, "mix": ["stream", "notify"], "gatereader": True, "reverse": True}})
         scen.append({"sc": "c15.end", "args": {"cause": cause, "mix": ["unary"], "bigblocked": True, "reverse": True}})
+        # ... the peer sent an empty message earlier on
+        scen.append({"sc": "c15.end", "args": {"cause": cause, "mix": ["unary", "stream"], "emptyframe": True, "noping": True, "reverse": True}})
         # ... the peer only half-closes (FIN) while the writer is blocked; the end comes while the reader is inside a frame body
         scen.append({"sc": "c15.end", "args": {"cause": "halffin", "mix": ["unary", "notify"], "bigblocked": True, "reverse": True}})
         scen.append({"sc": "c15.end", "args": {"cause": cause, "mix": ["unary"], "partial": True, "noping": True, "reverse": True}})
@@ -1020,6 +1042,7 @@ def c16(run, replay):
             scen.append({"sc": "c16.reverse", "args": {"clients": 2, "calls": 2, "reverse": True, "lose": lose, "pos": pos}})
     scen.append({"sc": "c16.reverse", "args": {"clients": 2, "calls": 2, "reverse": True, "lose": "queued"}})
     scen.append({"sc": "c16.reverse", "args": {"clients": 3, "calls": 2, "reverse": True, "notifycb": True}})
+    scen.append({"sc": "c16.reverse", "args": {"clients": 4, "calls": 4, "reverse": True, "alias2": True}})     # clients with different alias tables
     scen.append({"sc": "c16.reverse", "args": {"clients": 2, "calls": 2, "reverse": False}})
     scen.append({"sc": "c16.reverse", "args": {"clients": 2, "calls": 2, "reverse": True, "transport": "http"}})
     perturb(rnd, scen, HOOK_POINTS_REQ + ["closeinflight.pre", "rd.err", "main.incoming"], 0.4)
@@ -1053,7 +1076,7 @@ def c17(run, replay):
         r = run.tlc(wd, "Keepalive.tla", cfg, timeout=900, tag="model_runs")
         if r["violated"] != inv:
             raise vp.ToolFailure("self-test: %s should violate %s, got %s" % (cfg, inv, r["violated"]))
-    settings = [(15, 120), (10, 100), (25, 200), (8, 60)]
+    settings = [(15, 120), (10, 100), (25, 200), (12, 90)]
     scen = []
     for (p, t) in (settings if thorough else rnd.sample(settings, 2)):
         for srvping in ([-1, 0, 1000, 20] if thorough else rnd.sample([-1, 0, 1000, 20], 2)):
@@ -1065,6 +1088,19 @@ def c17(run, replay):
         scen.append({"sc": "c17.keepalive", "args": {"pingms": 50, "timeoutms": 4000, "srvpingms": srvping, "blackhole": "", "stallwritems": 1600,
                                                      "longx": 0.05, "idlex": 0.05}})
     trace, viol = run_ws_scenarios(run, wd, scen, "c17", timeout=3000)
+    # confirm before raising an alarm: these scenarios run on millisecond-scale timeouts, and one scheduling hiccup of the machine
+    # (tens of milliseconds without the client's loop running) legitimately looks like a silent peer. A violation is reported
+    # only if the same clause shows up again when the scenario is run a second time.
+    mine = [v for v in viol if v[1] == "C17" and 0 < v[0] <= len(scen)]
+    if mine:
+        idx = sorted({v[0] for v in mine})
+        again = [scen[i - 1] for i in idx]
+        trace2, viol2 = run_ws_scenarios(run, wd, again, "c17confirm", timeout=3000)
+        confirmed = {(idx[v[0] - 1], v[2]) for v in viol2 if v[1] == "C17" and 0 < v[0] <= len(idx)}
+        dropped = [v for v in mine if (v[0], v[2]) not in confirmed]
+        if dropped:
+            run.cov.setdefault("unconfirmed_timing_observations", []).extend([{"scenario": scen[v[0] - 1], "clause": v[2]} for v in dropped][:5])
+        viol = [v for v in viol if v[1] != "C17" or (v[0], v[2]) in confirmed]
     report_ws(run, trace, viol, "C17", scen, "keepalive")
     run.cov["distinct_nontrivial"] = len(set(json.dumps(s, sort_keys=True) for s in scen))
     run.cov["rule"] = "(ping, timeout) x server ping x black-hole point x healthy-again phase; distinct = distinct descriptions"
